@@ -2,8 +2,8 @@
 from ..rules import folds
 from .common import declare
 
-RULES = ['MIRROR', 'ACCRUE-DECAY-SIG', 'DECAY-UNREACHABLE', 'FOLD-DERIVE', 'WINDOW-FIFO', 'AGG-TABLE']
-FLOORS = {'MIRROR': 11, 'ACCRUE-DECAY-SIG': 6, 'DECAY-UNREACHABLE': 3, 'FOLD-DERIVE': 14, 'WINDOW-FIFO': 8, 'AGG-TABLE': 19}
+RULES = ['MIRROR', 'ACCRUE-DECAY-SIG', 'DECAY-UNREACHABLE', 'FOLD-DERIVE', 'WINDOW-FIFO', 'DECAY-CONSERVES', 'AGG-TABLE']
+FLOORS = {'MIRROR': 11, 'ACCRUE-DECAY-SIG': 6, 'DECAY-UNREACHABLE': 3, 'FOLD-DERIVE': 14, 'WINDOW-FIFO': 8, 'DECAY-CONSERVES': 7, 'AGG-TABLE': 19}
 
 META = {
     'level': "Static analysis of accrual/decay structure: for each of 11 aggregation classes on_old is the algebraic inverse of on_new "
@@ -11,22 +11,27 @@ META = {
              "(MIRROR); window accumulators accrue at most once per call and decay exactly once per non-empty decayed chunk with the "
              "size-state twin in lock-step, storing the new history (ACCRUE-DECAY-SIG); EWMean, whose decay is a stub, is reachable only "
              "from an Expanding window that never decays (DECAY-UNREACHABLE); decay steps derive state from state (FOLD-DERIVE on "
-             "on_old); window histories are copied, appended right and decayed left (WINDOW-FIFO). The row arithmetic of "
-             "diff_iloc/diff_loc and vanished-group masking values are value-level and NOT decided.",
+             "on_old); window histories are copied, appended right and decayed left (WINDOW-FIFO); rows leave the history only into "
+             "the decayed list - popped frames are decayed, a split keeps X[k:] and decays X[:k] of the same frame at the same k - and "
+             "diff_iloc's excess is rows - window, reduced by each popped frame's length, consumed exactly by a split "
+             "(DECAY-CONSERVES, on let-normal forms + one arithmetic lemma). diff_loc's cut-off value (newest index - T + 1ns) and "
+             "vanished-group masking values are value-level and NOT decided.",
     'note': "Trusted: x.add(t, fill_value=0) and x.sub(t, fill_value=0) are inverse, + and - are inverse; exception table "
             "MIRROR_EXCEPT (Full, EWMean) printed in the evidence.",
     'technique': "static analysis: sibling cross-check on_new/on_old on symbolic normal forms + call-count signatures on enumerated "
-                 "paths (MIRROR, ACCRUE-DECAY-SIG, DECAY-UNREACHABLE, FOLD-DERIVE, WINDOW-FIFO)",
+                 "paths (MIRROR, ACCRUE-DECAY-SIG, DECAY-UNREACHABLE, FOLD-DERIVE, WINDOW-FIFO, DECAY-CONSERVES)",
 }
 
 
 def run(ctx, R):
     R.explanation = 'Inverse relation of accrual and decay steps, and their application counts in the window accumulators.'
-    R.not_decided = ['row arithmetic of diff_iloc / diff_loc (which rows decay)', 'vanished-group masking values']
+    R.not_decided = ["diff_loc's cut-off value (newest index - T + 1ns) and pandas label slicing", 'vanished-group masking values']
     declare(R, folds.RULES, RULES, FLOORS)
     R.run(folds.check_mirror, ctx, R)
     R.run(folds.check_accrue_decay, ctx, R)
     R.run(folds.check_decay_unreachable, ctx, R)
     R.run(folds.check_fold_derive, ctx, R, steps=('on_new', 'on_old'))
     R.run(folds.check_window_fifo, ctx, R)
+    R.run(folds.check_decay_conserves, ctx, R)
+    R.run(folds.check_excess_accounting, ctx, R)
     R.run(folds.check_agg_table, ctx, R)
